@@ -200,7 +200,9 @@ def render_doc(lines, module_name, indent="", leader=True, module_gap=" ", inlin
     first = "#[[[" if module_name is None else ("#[[[" + module_gap + "@module" + (" " + module_name if module_name else ""))
     body = []
     for l in lines:
-        if leader:
+        if leader and l.startswith("<nospace>"):       # this line is written without the optional space after '#'
+            body.append(indent + "#" + l[len("<nospace>"):])
+        elif leader:
             body.append(indent + ("# " + l if l != "" else "#"))
         else:
             body.append(indent + l)
